@@ -21,6 +21,7 @@ type guardSpec struct {
 // call dispatches one call site. k continues the path with the call's result.
 func (fr *frame) call(st *PState, site ssa.Instruction, c *ssa.CallCommon, k0 func(*PState, Val)) {
 	ex := fr.ex
+	fr.curSite = site
 	// remember the latest result of each callee (by bare name) on the path: guard clauses may refer to it
 	cname := ""
 	if c.IsInvoke() {
@@ -567,6 +568,21 @@ func (fr *frame) checkGuards(st *PState, qname string, sig *types.Signature, arg
 				}
 			} else {
 				vars["res_"+name+"_0"] = res
+			}
+		}
+		// plain locals of the function under contract as they stand at the call site (loop variables, copies)
+		if fr.depth == 0 && fr.curSite != nil && fr.curSite.Parent() == fr.fn {
+			blk := fr.curSite.Block()
+			at := len(blk.Instrs)
+			for i, ins := range blk.Instrs {
+				if ins == fr.curSite {
+					at = i
+				}
+			}
+			for name, v := range fr.namedLocals(st, blk, at) {
+				if _, taken := vars[name]; !taken {
+					vars[name] = v
+				}
 			}
 		}
 		env := (&SpecEnv{ex: fr.ex, vars: vars, cur: st, old: tc.entry, pkg: tc.contract.Pkg, bound: map[string]T{}}).Goal()
